@@ -136,12 +136,23 @@ func init() {
 		rtPkg + ".IteU64": func(m *Machine, _ *Thread, _ *Frame, a []Value, _ ssa.Value) Value {
 			return Ite(a[0].(*Term), a[1].(*Term), a[2].(*Term))
 		},
-		rtPkg + ".SQLKind": func(m *Machine, _ *Thread, _ *Frame, a []Value, _ ssa.Value) Value {
+		rtPkg + ".SQLParse": func(m *Machine, _ *Thread, _ *Frame, a []Value, _ ssa.Value) Value {
 			q, ok := m.litValue(a[0].(*Term))
-			if !ok {
-				return BVC(64, 0)
+			st := sqlStmt{}
+			if ok {
+				st = parseSQL(q)
 			}
-			return BVC(64, uint64(sqlKind(q)))
+			mkInts := func(xs []int) Value {
+				if len(xs) == 0 {
+					return SliceV{}
+				}
+				e := make([]Value, len(xs))
+				for i, x := range xs {
+					e[i] = BVC(64, uint64(x))
+				}
+				return SliceV{O: m.newObj(&ArrayV{E: e}, "sqlcols"), Len: len(xs), Cap: len(xs)}
+			}
+			return TupleV{BVC(64, uint64(st.op)), BVC(64, uint64(st.conflict)), mkInts(st.cols), BoolC(st.whereKey)}
 		},
 		rtPkg + ".Last": func(m *Machine, _ *Thread, _ *Frame, a []Value, _ ssa.Value) Value {
 			name := m.litArg(a[0], "name")
@@ -248,6 +259,14 @@ func init() {
 			return BVC(64, uint64(th.id))
 		},
 
+		"crypto/sha256.Sum256": func(m *Machine, _ *Thread, _ *Frame, a []Value, _ ssa.Value) Value {
+			// ideal hash (A-hash): injective constructor over the input bytes
+			x := m.termOf(a[0])
+			if m.Domain == DomAlgebra {
+				return ByteArr{T: m.ctor("sha256", x), N: 32}
+			}
+			return ByteArr{T: App("uf.sha256", SString, x), N: 32}
+		},
 		"bytes.Equal": func(m *Machine, _ *Thread, _ *Frame, a []Value, _ ssa.Value) Value { return m.bytesEqual(a[0], a[1]) },
 		"math/bits.Len64": func(m *Machine, _ *Thread, _ *Frame, a []Value, _ ssa.Value) Value {
 			return BVLen(a[0].(*Term))
@@ -590,28 +609,150 @@ func (m *Machine) formatInt(t *Term, signed bool, width int) *Term {
 	return r
 }
 
-// sqlKind recognises the statement shapes of the database contract model.
-func sqlKind(q string) int {
-	n := strings.ToLower(strings.Join(strings.Fields(strings.ReplaceAll(strings.ReplaceAll(strings.ReplaceAll(q, "(", " ( "), ")", " ) "), ",", " , ")), " "))
-	n = strings.TrimSuffix(strings.TrimSpace(n), ";")
-	n = strings.TrimSpace(n)
-	switch {
-	case strings.HasPrefix(n, "create table if not exists chkpts ("):
+// sqlStmt is the parsed form of one of the statement shapes the database contract model knows:
+// a single table chkpts(logID, chkpt, range) keyed by logID.
+type sqlStmt struct {
+	op       int   // 0 unknown, 1 create, 2 select, 3 insert, 4 update, 5 delete
+	conflict int   // insert: 0 plain (error on conflict), 1 OR REPLACE, 2 OR IGNORE
+	cols     []int // select: result columns; insert: target columns; update: SET columns (1 logID, 2 chkpt, 3 range)
+	whereKey bool  // ... WHERE logID = ?
+}
+
+func sqlCol(name string) int {
+	switch name {
+	case "logid":
 		return 1
-	case n == "select chkpt from chkpts where logid = ?":
+	case "chkpt":
 		return 2
-	case n == "select logid from chkpts":
+	case "range":
 		return 3
-	case n == "insert or replace into chkpts ( logid , chkpt ) values ( ? , ? )", n == "replace into chkpts ( logid , chkpt ) values ( ? , ? )":
-		return 4
-	case n == "insert into chkpts ( logid , chkpt ) values ( ? , ? )":
-		return 5
-	case n == "update chkpts set chkpt = ? where logid = ?":
-		return 6
-	case n == "delete from chkpts where logid = ?":
-		return 7
-	case n == "insert or ignore into chkpts ( logid , chkpt ) values ( ? , ? )":
-		return 8
 	}
 	return 0
+}
+
+func parseSQL(q string) sqlStmt {
+	n := strings.ToLower(q)
+	for _, c := range []string{"(", ")", ",", "=", ";"} {
+		n = strings.ReplaceAll(n, c, " "+c+" ")
+	}
+	t := strings.Fields(n)
+	for len(t) > 0 && t[len(t)-1] == ";" {
+		t = t[:len(t)-1]
+	}
+	bad := sqlStmt{}
+	eat := func(words ...string) bool {
+		if len(t) < len(words) {
+			return false
+		}
+		for i, w := range words {
+			if t[i] != w {
+				return false
+			}
+		}
+		t = t[len(words):]
+		return true
+	}
+	where := func() (bool, bool) { // (hasWhere, ok)
+		if len(t) == 0 {
+			return false, true
+		}
+		if eat("where", "logid", "=", "?") && len(t) == 0 {
+			return true, true
+		}
+		return false, false
+	}
+	switch {
+	case eat("create", "table", "if", "not", "exists", "chkpts", "("):
+		return sqlStmt{op: 1}
+	case eat("select"):
+		st := sqlStmt{op: 2}
+		for len(t) > 0 && t[0] != "from" {
+			if t[0] != "," {
+				c := sqlCol(t[0])
+				if c == 0 {
+					return bad
+				}
+				st.cols = append(st.cols, c)
+			}
+			t = t[1:]
+		}
+		if !eat("from", "chkpts") || len(st.cols) == 0 {
+			return bad
+		}
+		w, ok := where()
+		if !ok {
+			return bad
+		}
+		st.whereKey = w
+		return st
+	case eat("insert") || eat("replace"):
+		st := sqlStmt{op: 3}
+		if strings.HasPrefix(strings.ToLower(strings.TrimSpace(q)), "replace") {
+			st.conflict = 1
+		}
+		if eat("or", "replace") {
+			st.conflict = 1
+		} else if eat("or", "ignore") {
+			st.conflict = 2
+		}
+		if !eat("into", "chkpts", "(") {
+			return bad
+		}
+		for len(t) > 0 && t[0] != ")" {
+			if t[0] != "," {
+				c := sqlCol(t[0])
+				if c == 0 {
+					return bad
+				}
+				st.cols = append(st.cols, c)
+			}
+			t = t[1:]
+		}
+		if !eat(")", "values", "(") {
+			return bad
+		}
+		nq := 0
+		for len(t) > 0 && t[0] != ")" {
+			if t[0] == "?" {
+				nq++
+			} else if t[0] != "," {
+				return bad
+			}
+			t = t[1:]
+		}
+		if !eat(")") || len(t) != 0 || nq != len(st.cols) {
+			return bad
+		}
+		return st
+	case eat("update", "chkpts", "set"):
+		st := sqlStmt{op: 4}
+		for len(t) > 0 && t[0] != "where" {
+			if t[0] == "," {
+				t = t[1:]
+				continue
+			}
+			if len(t) < 3 || t[1] != "=" || t[2] != "?" {
+				return bad
+			}
+			c := sqlCol(t[0])
+			if c == 0 {
+				return bad
+			}
+			st.cols = append(st.cols, c)
+			t = t[3:]
+		}
+		w, ok := where()
+		if !ok || len(st.cols) == 0 {
+			return bad
+		}
+		st.whereKey = w
+		return st
+	case eat("delete", "from", "chkpts"):
+		w, ok := where()
+		if !ok {
+			return bad
+		}
+		return sqlStmt{op: 5, whereKey: w}
+	}
+	return bad
 }
